@@ -11,6 +11,10 @@ fault-prone there goes behind `SeamOS` / `SeamGlob` objects installed as the
   current op: `Seam.tick` counts it and raises `SimCrash` *before* the k-th one
   when the op says `crash_at = k` (the process is killed at that instant: what
   is on disk stays exactly as it is);
+* `Seam.checkpoint` marks the points at which an operation in progress can
+  be pre-empted (a callback the code under test itself makes between two
+  entries of a scan, or the per-entry `stat()` of a scan loop): the op says
+  which complete operations of other actors run there;
 * external commands (fake netdev / ipset / newnet calls) go through
   `Seam.command`: they are steps too, and the k-th command of the op raises
   `subproc.CalledProcessError` when the op says `fail_at = k`.
@@ -60,6 +64,8 @@ class Seam:
         self.failed = False
         self.total_steps = 0
         self.on_step = None     # optional callable(kind, what)
+        self.checkpoints = 0    # pre-emption points passed in this op
+        self.on_checkpoint = None   # optional callable(count, kind)
         self.make_error = None  # callable(what) -> exception (CalledProcessError)
 
     def begin(self, order=0, crash_at=None, fail_at=None):
@@ -70,6 +76,14 @@ class Seam:
         self.fail_at = fail_at
         self.crashed = False
         self.failed = False
+        self.checkpoints = 0
+
+    def checkpoint(self, kind):
+        """A point at which the operation in progress can be pre-empted by
+        complete operations of other actors (decided by the op)."""
+        if self.on_checkpoint is not None:
+            self.checkpoints += 1
+            self.on_checkpoint(self.checkpoints, kind)
 
     def end(self):
         self.crash_at = None
@@ -114,9 +128,15 @@ _MUTATORS = ('symlink', 'unlink', 'remove', 'rename', 'replace', 'mkdir',
 class SeamOS:
     """Stands in for the `os` module inside one module under test."""
 
-    def __init__(self, seam, overrides=None):
+    def __init__(self, seam, overrides=None, stat_checkpoint=False):
         self._seam = seam
         self._overrides = dict(overrides or {})
+        if stat_checkpoint:
+            # the per-entry stat() of a scan loop is a pre-emption point
+            def stat(path, *args, **kwargs):
+                seam.checkpoint('stat')
+                return _real_os.stat(path, *args, **kwargs)
+            self._overrides['stat'] = stat
 
     def __getattr__(self, name):
         if name.startswith('_seam') or name == '_overrides':
